@@ -461,3 +461,42 @@ def typenames(run):
             for bi, t in g.calls():
                 if (t.get("callee") or "").endswith("from_str_radix") and len(t["args"]) > 1:
                     run.check(const_int(t["args"][1]) == 10, R, R + "|dN|radix|" + g.id, g.loc(t["span"]), "%s parses the #d<N> width in decimal" % g.id, "%s parses the #d<N> width with radix %s" % (g.id, const_int(t["args"][1])))
+
+
+def size_writers(run, R="RNG"):
+    """who may declare the width of a BigInt.  `#dN`, typed parameters and `@` trust `size` when it is present
+    (size_or_min_size, concat), so a writer that declares a width the value does not fit silently cuts bits downstream.
+    Every function that stores into BigInt.size, builds a BigInt literal, or calls BigInt::new with a width is compared
+    with the audited table (tables/operators.json: size_writers)."""
+    from rules_sym import deep
+    prog = run.prog
+    audited = run.table("operators")["size_writers"]
+    writers = {}
+    for f in prog.real_fns():
+        root = f.raw.get("root") or f.id
+        for bi, si, st in f.stmts():
+            if st["k"] != "assign":
+                continue
+            pr = st["place"]["p"]
+            if pr and isinstance(pr[-1], dict) and pr[-1].get("name") == "size" and "Option<usize>" in (pr[-1].get("ty") or ""):
+                # the struct the field belongs to
+                owner = f.local_ty(st["place"]["l"]) if len(pr) == 1 else None
+                if owner is None:
+                    prev = [x for x in pr[:-1] if isinstance(x, dict) and x.get("ty")]
+                    owner = prev[-1]["ty"] if prev else f.local_ty(st["place"]["l"])
+                if "bigint::BigInt" in (owner or ""):
+                    writers.setdefault(root, []).append(("store", st["span"]))
+            if st["rv"]["k"] == "agg" and st["rv"].get("agg") == "adt" and st["rv"].get("adt", "").endswith("bigint::BigInt"):
+                flds = st["rv"].get("fields") or []
+                if "size" in flds and deep(f, st["rv"]["ops"][flds.index("size")], 3) != "None{}":
+                    writers.setdefault(root, []).append(("literal", st["span"]))
+        for bi, t in f.calls():
+            if (t.get("callee") or "").endswith("bigint::BigInt::new") and len(t["args"]) == 2 and deep(f, t["args"][1], 3) != "None{}":
+                writers.setdefault(root, []).append(("new", t["span"]))
+    for w in sorted(writers):
+        kind, span = writers[w][0]
+        f = prog.fn(w)
+        run.check(w in audited, R, "%s|size-writer|%s" % (R, w), f.loc(span) if f else "-",
+                  "%s declares a BigInt width (%s): audited -- %s" % (w, "/".join(sorted(set(k for k, _ in writers[w]))), audited.get(w, "")),
+                  "%s declares the width of a BigInt (%s) but is not an audited writer: `#dN`, typed parameters and `@` trust a declared width, so a width the value does not fit cuts bits silently" % (w, "/".join(sorted(set(k for k, _ in writers[w])))))
+    run.floor(R, "BigInt width writers", len(writers), 13)
